@@ -306,3 +306,56 @@ func Replay(path string) int {
 	fmt.Println("program passes")
 	return 0
 }
+
+// subHX runs hx scopes as part of another check and merges the counts into cov; returns violation replay paths.
+func subHX(prop string, scopes []string, tier string, cov map[string]interface{}, quick, thorough time.Duration) []string {
+	dl := quick
+	if tier == "thorough" {
+		dl = thorough
+	}
+	deadline := time.Now().Add(dl)
+	pool := par.NewPool(Workers(), "worker", "hx")
+	defer pool.Close()
+	var viols []string
+	for _, name := range scopes {
+		classify := func(v *hx.Violation) string {
+			if f := MatchFinding(prop, v.Notes, v.Fail.Kind, v.Fail.Msg); f != nil {
+				return f.ID
+			}
+			return ""
+		}
+		onViol := func(v *hx.Violation) {
+			if len(viols) >= 5 {
+				return
+			}
+			art := map[string]interface{}{"property": prop, "scope": v.Scope, "tier": tier, "idx": v.Idx, "seed": v.Seed, "cfg": v.Cfg,
+				"program": v.Prog, "program_text": apix.ProgString(v.Prog), "fail": v.Fail, "notes": v.Notes}
+			p := evid.Replay(prop, art)
+			viols = append(viols, p)
+			evid.Violation(prop, p)
+			fmt.Printf("  %s\n  program: %s\n", v.Fail.Error(), apix.ProgString(v.Prog))
+		}
+		st := hx.Explore(pool, name, tier, deadline, classify, onViol)
+		cov["hx_"+name] = map[string]interface{}{"states": st.States, "transitions": st.Transitions, "max_depth": st.MaxDepth,
+			"exhaustive": st.Exhaustive, "caps_hit": st.Capped, "known_finding_hits": st.Known, "harness_errors": st.Errors, "samples": st.Samples}
+		if s, ok := cov["states"].(int); ok {
+			cov["states"] = s + st.States
+		}
+		if s, ok := cov["transitions"].(int); ok {
+			cov["transitions"] = s + st.Transitions
+		}
+		if s, ok := cov["traces_validated_against_impl"].(int); ok {
+			cov["traces_validated_against_impl"] = s + st.Transitions
+		}
+		if !st.Exhaustive || len(st.Errors) > 0 {
+			cov["exhaustive"] = false
+		}
+		fmt.Printf("%s %s: scope %s: states=%d transitions=%d depth=%d exhaustive=%v errors=%d\n", prop, tier, name, st.States, st.Transitions, st.MaxDepth, st.Exhaustive, len(st.Errors))
+		for i, e := range st.Errors {
+			if i < 3 {
+				fmt.Fprintln(os.Stderr, "harness error:", e)
+			}
+		}
+	}
+	return viols
+}
